@@ -12,6 +12,14 @@ let side (x : sexp) : (cfg * nat option list, string) Stdlib.result =
       match cfg_of_prog (as_name perf) (as_prog p) with
       | Ok (g, es) -> Stdlib.Ok (g, es)
       | Err m -> Stdlib.Error (string_of_cl m))
+  | L [ Atom "srcm"; perf; p ] -> (
+      (* program with macros: meaning = the inlined program *)
+      match inline (as_prog p) with
+      | Err m -> Stdlib.Error ("inline: " ^ string_of_cl m)
+      | Ok q -> (
+          match cfg_of_prog (as_name perf) q with
+          | Ok (g, es) -> Stdlib.Ok (g, es)
+          | Err m -> Stdlib.Error (string_of_cl m)))
   | _ -> raise (Bad "side expected")
 
 let jobs (o : obs) =
